@@ -260,13 +260,20 @@ class Exec(object):
         self.solver.add(t)
         self.pc.append(t)
 
-    def check(self, *extra):
+    def check(self, *extra, **kw):
+        """satisfiability of the path condition (plus extra).  Every caller treats `unknown` as `maybe`, so the
+        short feasibility budget applies unless full=True (precondition satisfiability at contract entry)."""
         t0 = time.time()
+        short = not kw.get('full') and self.branch_timeout_ms < self.timeout_ms
+        if short:
+            self.solver.set('timeout', self.branch_timeout_ms)
         self.solver.push()
         for e in extra:
             self.solver.add(e)
         r = self.solver.check()
         self.solver.pop()
+        if short:
+            self.solver.set('timeout', self.timeout_ms)
         self.solver_time += time.time() - t0
         self.solver_calls += 1
         if time.time() - t0 > 5 and os.environ.get('PYVC_SLOW'):
@@ -368,12 +375,8 @@ class Exec(object):
             self.branch_hist[k] = self.branch_hist.get(k, 0) + 1
         # feasibility of a guard: `unknown` is treated as feasible (exploring an infeasible path costs time only,
         # its obligations still need their own unsat), so a short budget is enough here
-        self.solver.set('timeout', min(self.timeout_ms, self.branch_timeout_ms))
-        try:
-            rt = self.check(c)
-            rf = self.check(z3.Not(c))
-        finally:
-            self.solver.set('timeout', self.timeout_ms)
+        rt = self.check(c)
+        rf = self.check(z3.Not(c))
         if rt == z3.unsat and rf == z3.unsat:
             raise PathEnd()
         if rt == z3.unsat:
